@@ -92,8 +92,11 @@ def analyse(item):
     return res
 
 
-def classify(viols, popen):
-    """Root cause of a probe that does not terminate: a node marked REMOVED is still linked in the reopened file."""
+def classify(viols, popen, threads=None):
+    """Root cause of a probe that does not terminate: a node marked REMOVED is still linked in the reopened file.
+    The recorded finding is the window of ONE pop: the thread that marked the node was stopped before its unlink CAS (or, when
+    that CAS had failed, before the store that restores the node). A removed node on the list that no stopped thread's pending
+    access explains in this way is something else (`...:unexplained`)."""
     if popen and popen.get("res", {}).get("k") == "ok":
         mem = []
         for lo, ln, v in popen["mem"]:
@@ -103,12 +106,30 @@ def classify(viols, popen):
         sent = doff - 24
         nxt = int.from_bytes(bytes(mem[sent:sent + 4]), "little")
         seen = 0
+        removed = []
         while nxt != 0xFFFFFFFF and nxt + 8 <= len(mem) and seen < 64:
             size = int.from_bytes(bytes(mem[nxt + 4:nxt + 8]), "little")
             if size == 0:
-                return "linked-removed-node"
+                removed.append(nxt)
             nxt = int.from_bytes(bytes(mem[nxt:nxt + 4]), "little")
             seen += 1
+        if removed:
+            if threads is None:
+                return "linked-removed-node"
+            explained = set()
+            for t in threads:
+                pa = t.get("pending") or {}
+                if t.get("done") or not pa:
+                    continue
+                a0, a1 = pa.get("a0"), pa.get("a1")
+                # unlink CAS: (size, next = the removed node) -> (size, its successor) on the sentinel or the predecessor
+                if pa.get("kind") == "cas" and pa.get("loc") in ("sent", "node") and isinstance(a0, list) and isinstance(a1, list) \
+                        and a0[0] == a1[0] and a0[1] != a1[1] and a0[1] in removed:
+                    explained.add(a0[1])
+                # restore store after a failed unlink: the node's own word gets its size back
+                if pa.get("kind") == "store" and pa.get("loc") == "node" and pa.get("off") in removed and isinstance(a0, list) and a0[0] != 0:
+                    explained.add(pa["off"])
+            return "linked-removed-node" if set(removed) <= explained else "linked-removed-node:unexplained"
     return "other"
 
 
@@ -187,7 +208,7 @@ def run(prop, tier, seed):
             if '"ev":"p_open"' in lines[j]:
                 popen = json.loads(lines[j])
             j -= 1
-        cause = classify(None, popen) if pred in ("ProbeTerminates",) else "-"
+        cause = classify(None, popen, json.loads(reset["threads"])) if pred in ("ProbeTerminates",) else "-"
         did = reset["driver"]
         viol.append({"prop": p, "pred": pred, "driver": sid, "i": reset["before_step"], "arena": 0, "op": {"threads": json.loads(reset["threads"])},
                      "res": ev if ev.get("ev") != "p_open" else {"ev": "p_open", "res": ev.get("res")},
